@@ -409,8 +409,6 @@ type vfDB struct {
 	// purgeStateCacheFunc hands to the importers of the syncer: one LFU cache behind
 	// util.NewPurgeFuncGCache whose purge function says no for every block but the last one)
 	shared util.GCache[string, [2]interface{}]
-
-	goroutines int // number of goroutines right after open
 }
 
 func vfStorageOptions() *leveldbopt.Options {
@@ -449,21 +447,43 @@ func (db *vfDB) open() {
 	vfMust(err)
 
 	db.pool = pool
-	db.goroutines = runtime.NumGoroutine()
 }
 
-// quiesce waits until the goroutines that the reads started have ended:
-// Center.dig cancels its other lookups when one temp answers and returns
-// without waiting for them, so a lookup can still be inside goleveldb after the
-// Center call returned; closing goleveldb under it crashes inside goleveldb.
-// A quiescent point is a point where those have finished.
-func (db *vfDB) quiesce() {
-	for i := 0; runtime.NumGoroutine() > db.goroutines; i++ {
-		if i > 20000 {
-			panic(fmt.Sprintf("harness: goroutines do not settle: %d > %d", runtime.NumGoroutine(), db.goroutines))
+// vfStragglers counts the goroutines, other than the calling one, that are
+// executing mitum code (job goroutines of util.BaseJobWorker that a returned
+// call left behind: Center.dig cancels its other lookups when one temp answers
+// and does not wait for them; a finished job still releases its semaphore).
+var vfStackBuf = make([]byte, 1<<20)
+
+func vfStragglers() int {
+	buf := vfStackBuf[:runtime.Stack(vfStackBuf, true)]
+
+	n := 0
+
+	for i, g := range strings.Split(string(buf), "\n\n") {
+		if i == 0 { // the caller
+			continue
 		}
 
-		if i < 100 {
+		if strings.Contains(g, "github.com/spikeekips/mitum/") {
+			n++
+		}
+	}
+
+	return n
+}
+
+// vfSettle waits until no goroutine is left inside mitum code. A lookup can
+// still be inside goleveldb after the Center call returned; closing goleveldb
+// under it crashes inside goleveldb, so a quiescent point is a point where those
+// have finished.
+func vfSettle() {
+	for i := 0; vfStragglers() > 0; i++ {
+		if i > 20000 {
+			panic("harness: goroutines inside mitum code do not end")
+		}
+
+		if i < 50 {
 			runtime.Gosched()
 
 			continue
@@ -472,6 +492,8 @@ func (db *vfDB) quiesce() {
 		time.Sleep(100 * time.Microsecond)
 	}
 }
+
+func (db *vfDB) quiesce() { vfSettle() }
 
 // close closes everything the way a node shutdown does (Center.Close does not
 // close the temps by design) and finally the goleveldb handle.
